@@ -37,7 +37,25 @@ func checkC15(c *FmtCase) Result {
 	}
 	got := callRedact("HelperForErrorf", format, args)
 	if got.panicked {
+		// (a panic raised while a panic payload is printed propagates, as in
+		// fmt - C11's business; but then Sprintf, which prints the same operands
+		// with the same methods, panics as well)
 		res.Classes = append(res.Classes, "panicked")
+		// (with every %w written as %v, so that the methods a correct %w calls
+		// are called there too)
+		c2 := *c
+		c2.Segs = nil
+		for _, sg := range c.Segs {
+			if sg.Dir != nil && string(sg.Dir.Verb) == "w" {
+				d := *sg.Dir
+				d.Verb = B("v")
+				sg = Seg{Dir: &d}
+			}
+			c2.Segs = append(c2.Segs, sg)
+		}
+		if sp := callRedact("Sprintf", c2.Format(), args); !c.HasRaw && !sp.panicked {
+			res.Err = fmt.Errorf("HelperForErrorf(%s, ...) panicked (%v); Sprintf(%s, ...) with the same operands does not", qs(format), got.panicVal, qs(c2.Format()))
+		}
 		return res
 	}
 	fail := func(f string, a ...interface{}) Result {
